@@ -76,10 +76,11 @@ type world struct {
 	seq       atomic.Int64
 	mu        sync.Mutex
 	hops      map[string][]hopRec
+	entered   map[string]int // arrivals per request id (counted on entry: nested hops have not returned yet)
 }
 
 func newWorld(w int) (*world, error) {
-	wd := &world{hops: map[string][]hopRec{}}
+	wd := &world{hops: map[string][]hopRec{}, entered: map[string]int{}}
 	wd.transport = security.NewClusterHTTPTransport(nil) // arc's own constructor, shared by this worker's routers
 	wd.client = &http.Client{Timeout: 60 * time.Second, Transport: &http.Transport{MaxIdleConnsPerHost: 8}}
 	for i := 0; i < 4; i++ {
@@ -149,7 +150,18 @@ func (wd *world) newNode(w, i int) (*physNode, error) {
 		rec := hopRec{Seq: wd.seq.Add(1), Req: req, Node: n.idx, Path: strings.Clone(c.Path()),
 			FwdBy: g(api.ForwardedByHeader), XFF: g("X-Forwarded-For"), XFHost: g("X-Forwarded-Host"),
 			XRealIP: g("X-Real-IP"), OrigHost: g("X-Arc-Original-Host"), Fwd: g("Forwarded")}
-		err := c.Next()
+		wd.mu.Lock()
+		wd.entered[req]++
+		seen := wd.entered[req]
+		wd.mu.Unlock()
+		var err error
+		if seen > 6 {
+			// safety valve: a request bouncing between nodes is already a recorded
+			// violation (more than two hops); cut the loop instead of waiting for timeouts
+			err = c.Status(599).SendString("verif: forwarding loop cut")
+		} else {
+			err = c.Next()
+		}
 		rec.Status = c.Response().StatusCode()
 		wd.mu.Lock()
 		wd.hops[req] = append(wd.hops[req], rec)
@@ -242,7 +254,7 @@ func (wd *world) apply(c clusterCfg) {
 			}
 			_ = reg.Register(mk(j, c.viewRole(i, j)))
 		}
-		r := cluster.NewRouter(&cluster.RouterConfig{Timeout: 3 * time.Second, Retries: 1, Registry: reg, LocalNode: local,
+		r := cluster.NewRouter(&cluster.RouterConfig{Timeout: 20 * time.Second, Retries: 1, Registry: reg, LocalNode: local,
 			Logger: zerolog.Nop(), Transport: wd.transport})
 		n.lp.SetRouter(r)
 		n.mp.SetRouter(r)
